@@ -12,7 +12,7 @@ from ..core import walk_local  # inline-aware
 from .common import (param_compare_tests, NotPure, eval_str_expr, first_returns_from, guarded, test_polarity_absent, unwrap_await,
                      where)
 from .storelib import facts, node_desc
-from .c01 import response_status
+from .c01 import response_status, return_status
 
 
 def header_reads(ctx):
@@ -175,7 +175,7 @@ def _precondition_obligations(ctx, fi, header, fail_label, effects, effect_desc,
     # the failing side answers with the right status
     starts = [m for t in tests for m, l in t.succ if l == fail_label]
     rets = first_returns_from(cfg, starts)
-    sts = sorted({response_status(ctx, fi, r.ast.value) for r in rets if r.ast.value is not None}, key=lambda x: (x is None, x))
+    sts = sorted({return_status(ctx, fi, r) for r in rets if r.ast.value is not None}, key=lambda x: (x is None, x))
     ok = bool(rets) and all(s == fail_status for s in sts)
     obs.append(ctx.ob(ok, construct, where(fi, tests[0]), "failed %s answers %d" % (header, fail_status),
                       "failing side returns %s" % sts, "failing side of the %s test returns %s, expected %d" % (header, sts, fail_status)))
@@ -212,7 +212,7 @@ def p1(ctx):
     get = ctx.func("xandikos.webdav._do_get")
     cfg = ctx.cfg(get)
     ok_returns = [n for n in cfg.nodes if n.kind == "return" and n.ast.value is not None
-                  and response_status(ctx, get, n.ast.value) == 200]
+                  and return_status(ctx, get, n) == 200]
     if not ok_returns:
         # status held in a variable: fall back to "the returns that send the body"
         ok_returns = [n for n in cfg.nodes if n.kind == "return" and isinstance(n.ast.value, ast.Call)
